@@ -63,6 +63,9 @@ func replayFile(c *core.Ctx) {
 			return
 		}
 		content := make([]int, len(u.keys))
+		if mis = in.observe(content); mis != nil { // the initial, empty trie
+			return
+		}
 		for i, as := range r.Actions {
 			var a action
 			if err := json.Unmarshal([]byte(as), &a); err != nil {
@@ -95,6 +98,12 @@ func replayFile(c *core.Ctx) {
 		}
 	}()
 	c.Out().Traces, c.Out().Evaluations = 1, done
+	for _, n := range in.notes {
+		c.Violate(n.class+"/"+r.Trie, fmt.Sprintf("replay of %s: %s", c.Replay, n.text), map[string]interface{}{"replay_of": f.Key, "mismatch": n.text})
+	}
+	if mis == nil && len(in.notes) > 0 {
+		return
+	}
 	if mis != nil {
 		c.Violate(mis.class+"/"+r.Trie, fmt.Sprintf("replay of %s: after %d of %d actions: %s", c.Replay, done, len(r.Actions), mis.text),
 			map[string]interface{}{"replay_of": f.Key, "mismatch": mis.text, "actions_executed": done})
